@@ -52,6 +52,13 @@ def run(ctx):
     for body in gen.long_bodies(rng, ctx.quick()):
         cmds.append("CONSTRUCT 01 02 0 1 PAYLOAD %s" % gen.hx(body))
         built.append(("payload", b"\x01\x02", 0, body))
+    # messages whose serialization ends in CR LF / sync bytes / zero bytes (what text-oriented clean-ups would eat)
+    for keyb in (b"\x06\x08", b"\x01\x02"):
+        for tgt in gen.SPECIAL_CHECKSUMS:
+            f = gen.frame_with_checksum(keyb[0], keyb[1], tgt, rng)
+            if f:
+                cmds.append("CONSTRUCT %s %s %d 1 PAYLOAD %s" % (keyb[0:1].hex(), keyb[1:2].hex(), 1 if keyb[0] == 6 else 0, gen.hx(f[6:-2])))
+                built.append(("payload", keyb, 1 if keyb[0] == 6 else 0, f[6:-2]))
     # integer addressing: msgclass2bytes on every (class, id) pair
     for c in range(256):
         for i in (range(256) if not ctx.quick() else list(range(0, 256, 5)) + [0x80, 0x13, 0xff, 1, 2, 6]):
@@ -89,7 +96,7 @@ def run(ctx):
         sers.append((b, m))
     wf = common.wf_oracle([m.serialize() for _, m in sers], shards=8)
     for (b, m), w in zip(sers, wf):
-        inp = {"op": b[0], "args": repr(b[1:])[:300]}
+        inp = {"op": b[0], "args": common.srepr(b[1:], 300)}
         nf = len(ctx.failures)
         if w != "1":
             ctx.fail("not-wellformed", inp, "well-formed frame", m.serialize()[:80].hex())
@@ -120,7 +127,7 @@ def run(ctx):
                     frames.append(type(e).__name__)
             nadd += 1
             if len(set(frames)) != 1:
-                ctx.fail("addressing-forms-differ", {"op": "ADDR", "name": name, "mode": mode}, "identical frames", repr(frames)[:200])
+                ctx.fail("addressing-forms-differ", {"op": "ADDR", "name": name, "mode": mode}, "identical frames", common.srepr(frames, 200))
     # message types keyed by class, id AND payload type (MGA-*): the three addressing forms, with a payload that
     # starts with the type byte
     for key, name in UBX_MSGIDS.items():
@@ -137,7 +144,7 @@ def run(ctx):
                     frames.append(type(e).__name__)
             nadd += 1
             if len(set(frames)) != 1:
-                ctx.fail("addressing-forms-differ", {"op": "ADDR", "name": name, "mode": mode, "payload": pl.hex()}, "identical frames", repr(frames)[:300])
+                ctx.fail("addressing-forms-differ", {"op": "ADDR", "name": name, "mode": mode, "payload": pl.hex()}, "identical frames", common.srepr(frames, 300))
             elif isinstance(frames[0], bytes) and frames[0][2:4] != key[0:2]:
                 ctx.fail("addressing-wrong-class-id", {"op": "ADDR", "name": name, "mode": mode}, key[0:2].hex(), frames[0][2:4].hex())
     ctx.count("addressing_cases", nadd)
